@@ -59,8 +59,12 @@ def run(ctx):
             return
         # phase 2: copies with rewritten versions
         box = [(a, b, c) for a in range(0, 5) for b in range(0, 24) for c in range(0, 5)]
-        if ctx.tier != "quick":
-            box += [(1, 18, 5), (2, 22, 0), (2, 19, 0), (1, 24, 0), (5, 0, 0), (-1, 6, 0), (1, -6, 0), (2 ** 31, 0, 0), (1, 6, 2 ** 31)]
+        # outside the box: negative components and components that would wrap into a supported triple if the
+        # stored 64-bit integers were narrowed to 32 (or 16, or 8) bits
+        W = 2 ** 32
+        box += [(1, 18, 5), (2, 22, 0), (2, 19, 0), (1, 24, 0), (5, 0, 0), (-1, 6, 0), (1, -6, 0), (1, 6, -1), (2 ** 31, 0, 0), (1, 6, 2 ** 31),
+                (W + 1, 6, 0), (1, W + 6, 0), (1, 6, W), (W + 2, 21, 2), (2, W + 21, 2), (2, 21, W + 2), (2 ** 63 - 1, 0, 0), (-2 ** 63, 6, 0),
+                (65537, 6, 0), (1, 65542, 0), (257, 6, 0), (1, 262, 0), (1, 6, 256)]
         loads = []
         meta = {}
         n = 0
@@ -105,6 +109,21 @@ def run(ctx):
             cid = "dir-" + name
             dcases[cid] = name
             loads.append({"id": cid, "ops": [{"op": "load", "dir": d}, {"op": "exists", "dir": d}]})
+        # the two files of a legacy library disagreeing: identification is by the music database (m.db)
+        disagree = {}
+        k = 0
+        for s_ in ("1.6.0", "1.18.0 (OS)"):
+            for mt, pt in (((1, 7, 1), None), ((9, 9, 9), None), (None, (9, 9, 9)), (None, (1, 7, 1)), ((1, 13, 2), (1, 6, 0)), ((1, 6, 3), (1, 6, 0))):
+                d = os.path.join(root, "dis%d" % k)
+                shutil.copytree(tdirs[s_], d)
+                if mt:
+                    set_version(os.path.join(d, "m.db"), mt)
+                if pt:
+                    set_version(os.path.join(d, "p.db"), pt)
+                cid = "dis%d" % k
+                disagree[cid] = (s_, mt or schema_tuple(s_), pt, marker_of(tdirs[s_]))
+                loads.append({"id": cid, "ops": [{"op": "load", "dir": d}, {"op": "release_all"}]})
+                k += 1
         # a library of one layout next to stray pieces of the other layout is still that library
         mixed = {}
         for s_, extra in (("1.6.0", "empty-Database2-dir"), ("1.18.0 (OS)", "Database2-dir-with-other-file"), ("2.21.2", "stray-p.db"),
@@ -130,6 +149,25 @@ def run(ctx):
             loads.append({"id": cid, "ops": [{"op": "load", "dir": tdirs[s_] + "/"}, {"op": "exists", "dir": tdirs[s_] + "/"}, {"op": "release_all"}]})
         results = {}
         runner.run_cases(loads, cfg="plain", on_result=lambda r: results.__setitem__(r.case["id"], r))
+        for cid, (s_, mt, pt, marker) in disagree.items():
+            r = results.pop(cid)
+            ctx.count()
+            ctx.bump("disagreeing_file_cases")
+            ev = r.events
+            wit = {"ops": r.case["ops"], "template": s_, "m.db": list(mt), "p.db": list(pt) if pt else None}
+            if r.crash or not ev:
+                ctx.violation("load-did-not-complete disagreeing-files", "loading a library whose two files disagree did not complete", wit)
+                continue
+            sup = SUPPORTED.get(tuple(mt))
+            if "exc" in ev[0]:
+                if sup is None and "unsupported_database" not in ev[0]["exc"].get("is", []):
+                    ctx.violation("unsupported-wrong-exception disagreeing-files", f"m.db says {mt}: refused with {ev[0]['exc']['type']}", wit)
+                continue
+            got = ev[0]["ret"]["version_name"]
+            want = ("1.18.0 (%s)" % marker) if tuple(mt) == (1, 18, 0) else (sup[0] if sup else None)
+            if want is None or got != want or ev[0]["ret"]["loaded_schema"] != want:
+                ctx.violation(f"misidentified disagreeing-files m={'.'.join(map(str, mt))}",
+                              f"m.db says {mt}, p.db says {pt}: loaded as {got}", wit)
         for cid, (s_, extra) in mixed.items():
             r = results.pop(cid)
             ctx.count()
